@@ -376,6 +376,13 @@ def explore(fn, max_paths=16, initial=None):
             goals = fn()
         except Abort:
             continue
+        except PathBound:
+            raise
+        except Exception as e:   # the code under analysis raised on this path: a candidate violation (sat iff the path is feasible), to be replayed
+            import traceback
+            tb = traceback.extract_tb(e.__traceback__)
+            where = next((f"{fr.filename}:{fr.lineno}" for fr in reversed(tb) if "/molli/" in fr.filename), "")
+            goals = [(f"raised {type(e).__name__}: {str(e)[:120]} at {where}", z3.BoolVal(True))]
         seen += 1
         if seen > max_paths:
             raise PathBound(f"more than {max_paths} feasible paths")
